@@ -5,6 +5,8 @@ What is translated (no import, no execution: `ast` only):
   config.Service.matches_offer / matches_find / matches_subscribe / matches_service  (whole bodies)
   sd._SessionStorage.check_received   (the reboot condition inside the try block)
   sd._SessionStorage.assign_outgoing  (wrap test, both successor tuples, the defaultdict's initial value)
+  service.SimpleService.message_received  (the chain of checks in front of the handler call with the return code each
+                                           sends, the code for a malformed message, the positive-reply condition)
 
 Supported subset: a body that is a (nested) chain of `if <cond>: return <e> | raise <Exc>(...)` [elif/else] ending in
 `return <e>`; conditions / expressions built from and / or / not, (chained) comparisons == != < <= > >= in `not in`,
@@ -298,6 +300,141 @@ def gen_outgoing(tree):
     return nxt, f"({a}, {b})"
 
 
+MTY = {"REQUEST": "request", "REQUEST_NO_RETURN": "requestNoReturn", "NOTIFICATION": "notification", "REQUEST_ACK": "requestAck",
+       "REQUEST_NO_RETURN_ACK": "requestNoReturnAck", "NOTIFICATION_ACK": "notificationAck", "RESPONSE": "response",
+       "ERROR": "error", "RESPONSE_ACK": "responseAck", "ERROR_ACK": "errorAck"}
+RCODE = {"E_OK": "ok", "E_NOT_OK": "notOk", "E_UNKNOWN_SERVICE": "unknownService", "E_UNKNOWN_METHOD": "unknownMethod",
+         "E_NOT_READY": "notReady", "E_NOT_REACHABLE": "notReachable", "E_TIMEOUT": "timeout",
+         "E_WRONG_PROTOCOL_VERSION": "wrongProtocolVersion", "E_WRONG_INTERFACE_VERSION": "wrongInterfaceVersion",
+         "E_MALFORMED_MESSAGE": "malformedMessage", "E_WRONG_MESSAGE_TYPE": "wrongMessageType"}
+
+
+def _svc_env(selfname, msg, multicast):
+    env = {multicast: ("multicast", "bool"), f"{msg}.service_id": ("m.sid", "nat"), f"{selfname}.service_id": ("c.serviceId", "nat"),
+           f"{msg}.interface_version": ("m.iv", "nat"), f"{selfname}.version_major": ("c.versionMajor", "nat"),
+           f"{msg}.message_type": ("m.mt", "mty"), f"{msg}.return_code": ("m.rc", "rc")}
+    for pre in ("header.", "someip.header.", ""):
+        for k, v in MTY.items():
+            env[f"{pre}SOMEIPMessageType.{k}"] = (f"MsgType.{v}", "mty")
+        for k, v in RCODE.items():
+            env[f"{pre}SOMEIPReturnCode.{k}"] = (f"RetCode.{v}", "rc")
+    return env
+
+
+def _is_log(stmt):
+    if not (isinstance(stmt, ast.Expr) and isinstance(stmt.value, ast.Call)):
+        return False
+    try:
+        name = _dotted(stmt.value.func)
+    except Unsupported:
+        return False
+    return name.startswith("self.log.") or name in ("warnings.warn", "logging.warning", "logging.info")
+
+
+class SvcTr(Tr):
+    """SimpleService.message_received: the chain of checks in front of the handler call.  Result type
+    Option (Option RetCode): none = return silently, some (some rc) = one error reply with rc, some none = call the handler."""
+
+    def __init__(self, env, selfname, msg):
+        super().__init__(env)
+        self.selfname, self.msg = selfname, msg
+
+    def cond(self, node):
+        # `method is None` / `method is not None` for the looked-up handler
+        if (isinstance(node, ast.Compare) and len(node.ops) == 1 and isinstance(node.left, ast.Name)
+                and self.env.get(node.left.id, (None, None))[1] == "method"
+                and isinstance(node.comparators[0], ast.Constant) and node.comparators[0].value is None):
+            if isinstance(node.ops[0], (ast.Is, ast.Eq)):
+                return "(!known)"
+            if isinstance(node.ops[0], (ast.IsNot, ast.NotEq)):
+                return "known"
+        if isinstance(node, ast.UnaryOp) and isinstance(node.op, ast.Not) and isinstance(node.operand, ast.Name) \
+                and self.env.get(node.operand.id, (None, None))[1] == "method":
+            return "(!known)"
+        return super().cond(node)
+
+    def terminal(self, stmts):
+        stmts = [x for x in stmts if not _is_log(x)]
+        if not stmts or not isinstance(stmts[-1], ast.Return) or stmts[-1].value is not None:
+            raise Unsupported("check block does not end in a bare return")
+        body = stmts[:-1]
+        if not body:
+            return "none"
+        if len(body) == 1 and isinstance(body[0], ast.Expr) and isinstance(body[0].value, ast.Call):
+            c = body[0].value
+            if _dotted(c.func) == f"{self.selfname}.send_error_response" and len(c.args) == 3 and not c.keywords \
+                    and _dotted(c.args[0]) == self.msg:
+                e, t = self.atom(c.args[2])
+                if t != "rc":
+                    raise Unsupported("error reply without a return code constant")
+                return f"some (some {e})"
+        raise Unsupported("check block does something else than one error reply")
+
+    def chain(self, stmts):
+        stmts = [x for x in stmts if not _is_log(x) and not (isinstance(x, ast.Expr) and isinstance(x.value, ast.Constant))]
+        if not stmts:
+            raise Unsupported("no handler call")
+        s, rest = stmts[0], stmts[1:]
+        if isinstance(s, ast.Try):
+            return "some none"
+        if isinstance(s, ast.Assign) and len(s.targets) == 1 and isinstance(s.targets[0], ast.Name):
+            v = s.value
+            if (isinstance(v, ast.Call) and _dotted(v.func) == f"{self.selfname}.methods.get" and len(v.args) == 1
+                    and _dotted(v.args[0]) == f"{self.msg}.method_id"):
+                self.env[s.targets[0].id] = ("<handler>", "method")
+                return self.chain(rest)
+            self.env[s.targets[0].id] = self.atom(v)
+            return self.chain(rest)
+        if isinstance(s, ast.If) and not s.orelse:
+            return f"(if {self.cond(s.test)} = true then {self.terminal(s.body)} else {self.chain(rest)})"
+        raise Unsupported(f"statement {type(s).__name__} in the check chain")
+
+
+def gen_svc(tree):
+    fn = _method(tree, "SimpleService", "message_received")
+    a = _args(fn)
+    if len(a) != 4:
+        raise Unsupported("signature")
+    tr = SvcTr(_svc_env(a[0], a[1], a[3]), a[0], a[1])
+    pre = tr.chain(fn.body)
+    tries = [n for n in fn.body if isinstance(n, ast.Try)]
+    if len(tries) != 1:
+        raise Unsupported("handler call")
+    t = tries[0]
+    # try: response = method(msg, addr)   except MalformedMessageError: one error reply; return
+    if not (len(t.body) == 1 and isinstance(t.body[0], ast.Assign) and isinstance(t.body[0].value, ast.Call)
+            and isinstance(t.body[0].targets[0], ast.Name) and len(t.handlers) == 1 and not t.orelse and not t.finalbody):
+        raise Unsupported("handler call shape")
+    resp = t.body[0].targets[0].id
+    if _dotted(t.handlers[0].type).split(".")[-1] != "MalformedMessageError":
+        raise Unsupported("handler exception")
+    mal = tr.terminal(t.handlers[0].body)
+    if not mal.startswith("some (some "):
+        raise Unsupported("malformed reply")
+    malcode = mal[len("some (some "):-1]
+    after = [x for x in fn.body[fn.body.index(t) + 1:] if not _is_log(x)]
+    if not (len(after) == 1 and isinstance(after[0], ast.If) and not after[0].orelse and len(after[0].body) == 1):
+        raise Unsupported("positive reply shape")
+    call = after[0].body[0]
+    if not (isinstance(call, ast.Expr) and isinstance(call.value, ast.Call)
+            and _dotted(call.value.func) == f"{a[0]}.send_positive_response"):
+        raise Unsupported("positive reply call")
+    kw = {k.arg: k.value for k in call.value.keywords}
+    if not (len(call.value.args) == 2 and _dotted(call.value.args[0]) == a[1] and set(kw) == {"payload"}
+            and isinstance(kw["payload"], ast.Name) and kw["payload"].id == resp):
+        raise Unsupported("positive reply arguments")
+
+    class P(SvcTr):
+        def cond(self, node):
+            if (isinstance(node, ast.Compare) and len(node.ops) == 1 and isinstance(node.left, ast.Name) and node.left.id == resp
+                    and isinstance(node.comparators[0], ast.Constant) and node.comparators[0].value is None):
+                return "hasResponse" if isinstance(node.ops[0], (ast.IsNot, ast.NotEq)) else "(!hasResponse)"
+            return super().cond(node)
+
+    pos = P(_svc_env(a[0], a[1], a[3]), a[0], a[1]).cond(after[0].test)
+    return pre, malcode, pos
+
+
 ITEMS = [
     # (lean name, signature, fallback = the model's own function, generator)
     ("matchesOffer", "(s : Service) (e : SDEntry) : Except Err Bool", "s.matchesOffer e", lambda c, s: gen_matches(c, "matches_offer")),
@@ -310,6 +447,14 @@ ITEMS = [
     ("nextOutgoing", "(flag : Bool) (id : Nat) : Bool × Nat", "if id ≥ 0xFFFF then (false, 1) else (flag, id + 1)",
      lambda c, s: gen_outgoing(s)[0]),
     ("outgoingDefault", ": Bool × Nat", "(true, 1)", lambda c, s: gen_outgoing(s)[1]),
+    ("svcPrecheck", "(c : SvcCfg) (m : Header) (multicast known : Bool) : Option (Option RetCode)",
+     "if multicast then none else if m.sid ≠ c.serviceId then some (some .unknownService) else if m.iv ≠ c.versionMajor then "
+     "some (some .wrongInterfaceVersion) else if !known then some (some .unknownMethod) else if m.mt ≠ .request ∧ m.mt ≠ .requestNoReturn "
+     "then some (some .wrongMessageType) else if m.rc ≠ .ok then some (some .wrongMessageType) else some none",
+     lambda c, s: gen_svc(_parse("service.py"))[0]),
+    ("svcMalformedCode", ": RetCode", ".malformedMessage", lambda c, s: gen_svc(_parse("service.py"))[1]),
+    ("svcPositive", "(m : Header) (hasResponse : Bool) : Bool", "hasResponse && decide (m.mt = .request)",
+     lambda c, s: gen_svc(_parse("service.py"))[2]),
 ]
 
 
@@ -325,7 +470,8 @@ def generate():
     out = ["/- GENERATED on every run by harness/pytolean.py from /repo/src/someip/{config,sd}.py - do not edit.",
            "   Each definition is the translation of the named Python function body (or of the named expression);",
            "   Props/GenEquiv.lean proves it equal to the hand-written model for all arguments. -/",
-           "import SomeipModel.Model.Config", "import SomeipModel.Model.Session", "namespace Someip.Gen", ""]
+           "import SomeipModel.Model.Config", "import SomeipModel.Model.Session", "import SomeipModel.Model.Service",
+           "namespace Someip.Gen", ""]
     for name, sig, fallback, gen in ITEMS:
         term = None
         if name not in status:
